@@ -60,6 +60,7 @@ def plugin(wl, configs=("avx2", "noadx"), shards=(1, 4), **kw):
 
 PLAN = {}
 CLAIMS = {}
+BROKEN = {}   # property -> error text of a plan file that does not load
 
 
 def _load():
@@ -73,7 +74,11 @@ def _load():
         spec = importlib.util.spec_from_file_location("plans_" + pid, f)
         m = importlib.util.module_from_spec(spec)
         m.J, m.both, m.plugin = J, both, plugin
-        spec.loader.exec_module(m)
+        try:
+            spec.loader.exec_module(m)
+        except Exception as e:  # a broken plan file must break its own property only, not every check
+            BROKEN[pid] = "%s: %s" % (type(e).__name__, e)
+            continue
         PLAN[pid] = m.PLAN
         CLAIMS[pid] = m.CLAIM
 
